@@ -2,7 +2,7 @@
 //!
 //! Case layout: a0 = [type id] (selects the concrete Rust type below), a1 = type descriptor
 //! (only the Coq model reads it), a2 = payload (flat value, or input bytes for `de`),
-//! a3 = [compress, validate] (only `de`).
+//! a3 = [compress, validate] (only `de`).  `check`: a2 = flat value; `batch_check`: a2 = flat `Vec<T>`.
 //!
 //! The flat rendering of values (trait `Zoo`) is the one documented in coq/C18/Run.v.
 //! No oracle logic here: every op calls the public ark-serialize API and prints the result.
@@ -340,6 +340,77 @@ impl Zoo for Modal {
     }
 }
 
+/// leaves with a hand-written, NON-TRIVIAL `Valid` impl (the way curve points are written): the model's
+/// `TLeaf w k`.  `Even32` keeps the default `batch_check`, `Lt200` overrides it with a one-pass batch test.
+macro_rules! vleaf {
+    ($name:ident, $int:ty, $ok:expr) => {
+        #[derive(Clone, Copy, Debug, PartialEq, Eq, PartialOrd, Ord)]
+        struct $name($int);
+        impl CanonicalSerialize for $name {
+            fn serialize_with_mode<W: Write>(&self, w: W, c: Compress) -> Result<(), SerializationError> {
+                self.0.serialize_with_mode(w, c)
+            }
+            fn serialized_size(&self, c: Compress) -> usize {
+                self.0.serialized_size(c)
+            }
+        }
+        impl CanonicalDeserialize for $name {
+            fn deserialize_with_mode<R: Read>(r: R, c: Compress, v: Validate) -> Result<Self, SerializationError> {
+                let e = $name(<$int>::deserialize_with_mode(r, c, v)?);
+                if v == Validate::Yes {
+                    e.check()?;
+                }
+                Ok(e)
+            }
+        }
+        impl Zoo for $name {
+            fn from_flat(it: &mut It<'_>) -> Self {
+                $name(<$int>::from_flat(it))
+            }
+            fn to_flat(&self, out: &mut Arg) {
+                self.0.to_flat(out)
+            }
+        }
+        impl $name {
+            fn ok(&self) -> bool {
+                let f: fn($int) -> bool = $ok;
+                f(self.0)
+            }
+        }
+    };
+}
+vleaf!(Even32, u32, |x| x % 2 == 0);
+vleaf!(Lt200, u8, |x| x < 200);
+impl Valid for Even32 {
+    fn check(&self) -> Result<(), SerializationError> {
+        if self.ok() {
+            Ok(())
+        } else {
+            Err(SerializationError::InvalidData)
+        }
+    }
+}
+impl Valid for Lt200 {
+    fn check(&self) -> Result<(), SerializationError> {
+        if self.ok() {
+            Ok(())
+        } else {
+            Err(SerializationError::InvalidData)
+        }
+    }
+    fn batch_check<'a>(batch: impl Iterator<Item = &'a Self> + Send) -> Result<(), SerializationError>
+    where
+        Self: 'a,
+    {
+        // one pass over the whole batch, one verdict (as batched subgroup checks do)
+        let mut worst = 0u8;
+        for x in batch {
+            worst = worst.max(x.0);
+        }
+        Lt200(worst).check()
+    }
+}
+
 // ---- derived structs: named, tuple, nested tuple fields, nesting, zero-sized ----
 
 #[derive(CanonicalSerialize, CanonicalDeserialize, Clone, Debug, PartialEq, Eq, PartialOrd, Ord)]
@@ -427,6 +498,59 @@ impl<T: Zoo + CanonicalSerialize + CanonicalDeserialize> Zoo for Gen<T> {
     }
 }
 
+// ---- derived structs over the validity-bearing leaves ----
+macro_rules! zoo_named {
+    ($name:ident { $($f:ident),* }) => {
+        impl Zoo for $name {
+            fn from_flat(it: &mut It<'_>) -> Self {
+                $name { $($f: Zoo::from_flat(it)),* }
+            }
+            fn to_flat(&self, out: &mut Arg) {
+                $(self.$f.to_flat(out);)*
+            }
+        }
+    };
+}
+#[derive(CanonicalSerialize, CanonicalDeserialize, Clone, Debug, PartialEq, Eq, PartialOrd, Ord)]
+struct VN {
+    a: Even32,
+    b: u16,
+    c: Lt200,
+}
+zoo_named!(VN { a, b, c });
+#[derive(CanonicalSerialize, CanonicalDeserialize, Clone, Debug, PartialEq, Eq, PartialOrd, Ord)]
+struct VT(Lt200, Even32);
+impl Zoo for VT {
+    fn from_flat(it: &mut It<'_>) -> Self {
+        VT(Zoo::from_flat(it), Zoo::from_flat(it))
+    }
+    fn to_flat(&self, out: &mut Arg) {
+        self.0.to_flat(out);
+        self.1.to_flat(out);
+    }
+}
+#[derive(CanonicalSerialize, CanonicalDeserialize, Clone, Debug, PartialEq, Eq, PartialOrd, Ord)]
+struct VNT {
+    h: u8,
+    p: (Even32, (Lt200, bool)),
+    t: Even,
+}
+zoo_named!(VNT { h, p, t });
+#[derive(CanonicalSerialize, CanonicalDeserialize, Clone, Debug, PartialEq, Eq, PartialOrd, Ord)]
+struct Outer {
+    a: u8,
+    v: Vec<VT>,
+}
+zoo_named!(Outer { a, v });
+/// bool bytes and option tags inside a derived struct and inside its sequence field
+#[derive(CanonicalSerialize, CanonicalDeserialize, Clone, Debug, PartialEq, Eq, PartialOrd, Ord)]
+struct VB {
+    f: bool,
+    o: Option<u16>,
+    v: Vec<Option<bool>>,
+}
+zoo_named!(VB { f, o, v });
+
 // ---- the ops ----
 
 fn bytes_arg(b: &[u8]) -> Arg {
@@ -473,6 +597,14 @@ fn ser<S: CanonicalSerialize + ?Sized>(x: &S, c: Compress) -> Result<Vec<u8>, Se
     let mut b = vec![];
     x.serialize_with_mode(&mut b, c)?;
     Ok(b)
+}
+
+/// rendering of a `Valid::check` / `batch_check` result: [1] = Ok(()), [0, kind] = Err
+fn vres(r: Result<(), SerializationError>) -> Arg {
+    match r {
+        Ok(()) => vec![from_u64(1)],
+        Err(e) => vec![from_u64(0), from_u64(kind(&e) as u64)],
+    }
 }
 
 fn run_t<T>(op: &str, a: &[Arg]) -> Vec<Arg>
@@ -569,6 +701,19 @@ where
                 ],
             ])
         },
+        "check" => {
+            let x: T = value(&a[2]);
+            ok(vec![vres(x.check()), vres(T::batch_check(core::iter::once(&x)))])
+        },
+        "batch_check" => {
+            let xs: Vec<T> = value(&a[2]);
+            ok(vec![
+                vres(T::batch_check(xs.iter())),
+                // the same batch through an iterator without an exact size (what flat_map / filter / flatten give)
+                vres(T::batch_check(xs.iter().filter(|_| true))),
+                xs.iter().map(|x| from_bool(x.check().is_ok())).collect(),
+            ])
+        },
         _ => unsupported(),
     }
 }
@@ -604,6 +749,19 @@ fn run(op: &str, a: &[Arg]) -> Vec<Arg> {
         67 => Named, 68 => Tup, 69 => Marker, 70 => Nest, 71 => Vec<Small>, 72 => Gen<Modal>,
         73 => BTreeSet<Option<u16>>, 74 => LinkedList<Even>, 75 => UC<Vec<Gen<Modal>>>,
         76 => BTreeSet<Even>, 77 => (Vec<u8>, Vec<u8>),
+        // validity-bearing leaves, derived structs over them, containers of those structs
+        78 => Even32, 79 => Lt200, 80 => VN, 81 => VT, 82 => VNT, 83 => Gen<Even32>, 84 => Gen<VT>,
+        85 => Vec<VT>, 86 => Vec<Vec<VT>>, 87 => Vec<Option<VT>>, 88 => [Vec<VT>; 2], 89 => Option<Vec<VN>>,
+        90 => BTreeMap<u8, VT>, 91 => VecDeque<VN>, 92 => LinkedList<VNT>, 93 => (VT, Vec<VT>),
+        94 => Outer, 95 => Vec<Outer>, 96 => Arc<VT>, 97 => Cow<'static, VN>, 98 => Vec<Arc<VN>>,
+        99 => BTreeSet<VT>, 100 => VecDeque<Vec<VN>>, 101 => LinkedList<Option<VT>>, 102 => BTreeMap<u8, Vec<VT>>,
+        103 => Vec<BTreeSet<VT>>, 104 => Vec<(VT, Option<VN>)>, 105 => Vec<Gen<Vec<VT>>>, 106 => Vec<[VT; 2]>,
+        107 => Vec<Vec<Lt200>>, 108 => Vec<Option<Even32>>, 109 => Vec<Cow<'static, VT>>,
+        110 => CC<Vec<Vec<VT>>>, 111 => Vec<CU<VT>>, 112 => Vec<Vec<Vec<VNT>>>, 113 => BTreeMap<VT, Option<VN>>,
+        // bool bytes / option tags inside sequences and derived structs
+        114 => VB, 115 => Vec<VB>, 116 => [Option<bool>; 3], 117 => VecDeque<Option<u8>>, 118 => LinkedList<bool>,
+        119 => Vec<Option<u16>>,
+        120 => [VT; 2], 121 => Option<VT>, 122 => Vec<[Vec<VN>; 2]>, 123 => UU<Vec<Vec<VT>>>, 124 => Vec<Arc<Vec<VT>>>,
     }
 }
 
